@@ -239,8 +239,9 @@ class C06ScalarND(Harness):
         if isinstance(r, Raised):
             obs["raised"] = r
         else:
-            obs["res"] = snapnd(E, r)
             obs["cls"] = type(r).__name__
+            if hasattr(r, "frequencies"):
+                obs["res"] = snapnd(E, r)
         return obs
 
     def oracle(self, cx, p, x, obs):
@@ -248,6 +249,9 @@ class C06ScalarND(Harness):
         idxs = product_indices(shape)
         yield "no_exception", obs.get("raised") is None
         if obs.get("raised") is not None:
+            return
+        yield "returns_histogram", "res" in obs
+        if "res" not in obs:
             return
         c = cx.t(x["c"])
         factor = c if p["op"] in ("mul", "rmul", "imul") else 1 / (z3.ToReal(c) if c.sort() == z3.IntSort() else c)
